@@ -84,6 +84,28 @@ func (l *layout) spellings(kind string, rng *rand.Rand, n int, twoArg bool) []sp
 		{"empty", true, []string{""}},
 	}
 
+	// composed links
+	classes = append(classes,
+		cls{"dirlink-dotdot", false, []string{l.lrel + "/../outside/" + T, l.labs + "/../outside/" + T, filepath.Join(l.root, l.lrel) + "/../outside/" + T}},
+		cls{"symlink-in-linked-dir", false, []string{l.lin + "/" + l.linnerDir + "/" + T, filepath.Join(l.root, l.lin, l.linnerDir, T)}})
+
+	switch kind {
+	case kTxt:
+		classes = append(classes,
+			cls{"symlink-dotdot-after-dirlink", false, []string{l.ldd, filepath.Join(l.root, l.ldd)}},
+			cls{"symlink-file-in-linked-dir", false, []string{l.lin + "/" + l.linner}})
+	case kNew:
+		classes = append(classes,
+			cls{"symlink-dangling-via-dirlink", false, []string{l.lcompNew, filepath.Join(l.root, l.lcompNew), "./" + l.lcompNew}},
+			cls{"symlink-dangling-via-chain", false, []string{l.lcompChainNew, filepath.Join(l.root, l.lcompChainNew)}},
+			cls{"symlink-dangling-via-dangling", false, []string{l.lcompDD, filepath.Join(l.root, l.lcompDD)}},
+			cls{"symlink-dotdot-after-dirlink", false, []string{l.lddNew, filepath.Join(l.root, l.lddNew)}})
+	case kNewDir:
+		classes = append(classes,
+			cls{"symlink-dangling-via-dirlink", false, []string{l.lcompNewDir, l.lcompNewDir + "/d1", filepath.Join(l.root, l.lcompNewDir)}},
+			cls{"symlink-dangling-via-dangling", false, []string{l.lcompDDDir, l.lcompDDDir + "/d1"}})
+	}
+
 	switch kind {
 	case kJSON:
 		classes = append(classes, cls{"symlink-file", false, []string{l.lfileJSON, filepath.Join(l.root, l.lfileJSON), "./" + l.lfileJSON}})
@@ -182,6 +204,10 @@ if err == nil { n, e2 := f.WriteString("C-DATA"); fmt.Println("D", n, e2); f.Clo
 	}},
 	"os.CreateTemp": {Kinds: []string{kDir, kNewDir}, Body: func(p, _ string) string {
 		return `f, err := os.CreateTemp(` + p + `, "tmp*.x"); fmt.Println("R", err == nil)
+if err == nil { f.WriteString("T-DATA"); f.Close() }`
+	}},
+	"os.CreateTemp/empty-pattern": {Kinds: []string{kDir}, Body: func(p, _ string) string {
+		return `f, err := os.CreateTemp(` + p + `, ""); fmt.Println("R", err == nil)
 if err == nil { f.WriteString("T-DATA"); f.Close() }`
 	}},
 	"os.Mkdir": {Kinds: []string{kNewDir}, Body: func(p, _ string) string {
